@@ -9,12 +9,12 @@
 (* the rest of the trace is still examined.  The POSTCONDITION checks that *)
 (* every line was consumed.                                                *)
 (***************************************************************************)
-EXTENDS Exchange, FramingDecision, Coding, Json, IOUtils, TLC, TraceUtil
+EXTENDS Exchange, FramingDecision, Coding, ErrorKinds, Json, IOUtils, TLC, TraceUtil
 
 Rec == ndJsonDeserialize(IOEnv.TRACE)
 
-VARIABLES l, sid
-tvars == <<s, st, l, sid>>
+VARIABLES l, sid, stalled      \* stalled: the scripted peer has stalled (a transport read really timed out)
+tvars == <<s, st, l, sid, stalled>>
 
 Report(line, id, sc, V) ==
   \A g \in V : Viol(line, id, PropertyOf(g, sc), g, "")
@@ -22,6 +22,7 @@ Report(line, id, sc, V) ==
 TraceInit ==
   /\ l = 1
   /\ sid = "-"
+  /\ stalled = FALSE
   /\ st = InitState
   /\ s = [framing |-> "none", headEnd |-> 0, payloadLen |-> 0, frameEnd |-> 0, wireLen |-> 0,
           cw |-> <<>>, cd |-> <<>>, faultKind |-> "none", faultAt |-> 0,
@@ -29,7 +30,7 @@ TraceInit ==
 
 Step(e) ==
   CASE e.ev = "reset" ->
-         /\ s' = e.s /\ st' = InitState /\ sid' = e.id
+         /\ s' = e.s /\ st' = InitState /\ sid' = e.id /\ stalled' = FALSE
          /\ Assert(IsScript(e.s), <<"malformed script in trace", l>>)
          \* the framing the harness claims by construction must be the one the decision table
          \* (FramingDecision.tla, the authority) derives from the header tokens it rendered
@@ -44,17 +45,21 @@ Step(e) ==
          /\ LET sel == Selected(e.s.method, e.s.ce, e.s.te) IN
             Assert(e.s.nocheck \/ sel = "unguarded" \/ e.s.framing = "none" \/ sel = e.s.coding,
                    <<"harness and Coding disagree", l, e.id, sel>>)
-    [] e.ev = "rel"   -> st' = AfterRel(st, e.k) /\ UNCHANGED <<s, sid>>
-    [] e.ev = "close" -> st' = AfterClose(st) /\ UNCHANGED <<s, sid>>
-    [] e.ev = "call"  -> st' = AfterCall(st, e.op, e.buf) /\ UNCHANGED <<s, sid>>
-    [] e.ev \in {"fail", "stall"} -> UNCHANGED <<s, st, sid>>
+    [] e.ev = "rel"   -> st' = AfterRel(st, e.k) /\ UNCHANGED <<s, sid, stalled>>
+    [] e.ev = "close" -> st' = AfterClose(st) /\ UNCHANGED <<s, sid, stalled>>
+    [] e.ev = "call"  -> st' = AfterCall(st, e.op, e.buf) /\ UNCHANGED <<s, sid, stalled>>
+    [] e.ev = "fail"  -> UNCHANGED <<s, st, sid, stalled>>
+    [] e.ev = "stall" -> stalled' = TRUE /\ UNCHANGED <<s, st, sid>>
     [] e.ev = "want"  ->
          /\ Report(l, sid, s, WantViolations(s, st))
-         /\ UNCHANGED <<s, st, sid>>
+         /\ UNCHANGED <<s, st, sid, stalled>>
     [] e.ev = "ret"   ->
          /\ Report(l, sid, s, RetViolations(s, st, e))
+         \* which kind of error (ErrorKinds.tla): C13's "only real timeouts", and the extended guards (notes)
+         /\ (~G13_onlyRealTimeouts(s, stalled, e)) => Viol(l, sid, "C13", "G13_onlyRealTimeouts", e.kind)
+         /\ \A g \in {x \in ExtGuards : ~ExtGuard(x, s, ~st.errSeen /\ ~EfsRejects(s, st), e)} : Viol(l, sid, "X-error-kinds", g, e.kind)
          /\ st' = AfterRet(st, e)
-         /\ UNCHANGED <<s, sid>>
+         /\ UNCHANGED <<s, sid, stalled>>
 
 TraceNext ==
   /\ l <= Len(Rec)
